@@ -130,6 +130,28 @@ def op_menu():
     ops.append(("wrongprefix:0:xtce-as-q", render_xml(docs_[0], "xtce"), "q", docs_[0].root, None, False))
     ops.append(("wrongprefix:1:q-as-None", render_xml(docs_[1], "q"), None, docs_[1].root, None, False))
     ops.append(("wrongprefix:2:none-as-xtce", render_xml(docs_[2], "none"), "xtce", docs_[2].root, None, False))
+    # loads that fail late: inside the container set (after base/nested lookups happened), and inside the parameter set
+    from mc.spec import doc_tree
+
+    def corrupt(doc, tag, attr, which=-1):
+        tree = doc_tree(doc)
+        hits = []
+
+        def walk(e):
+            if e.tag == tag:
+                hits.append(e)
+            for k in e.children:
+                walk(k)
+        walk(tree)
+        hits[which].attrs[attr] = "UNDEFINED_NAME_X"
+        return tree
+    ops.append(("latefail:0:xtce:dangling-parameterRef", render_xml(docs_[0], "xtce", tree=corrupt(docs_[0], "ParameterRefEntry", "parameterRef")), "xtce",
+                docs_[0].root, None, False))
+    ops.append(("latefail:4:none:dangling-parameterRef", render_xml(docs_[4], "none", tree=corrupt(docs_[4], "ParameterRefEntry", "parameterRef")), None,
+                docs_[4].root, None, False))
+    ops.append(("latefail:3:default:dangling-containerRef", render_xml(docs_[3], "default", tree=corrupt(docs_[3], "ContainerRefEntry", "containerRef")), None,
+                docs_[3].root, None, False))
+    ops.append(("latefail:1:q:dangling-typeRef", render_xml(docs_[1], "q", tree=corrupt(docs_[1], "Parameter", "parameterTypeRef")), "q", docs_[1].root, None, False))
     ops.append(("malformed:truncated", render_xml(docs_[0], "xtce")[:400], "xtce", "CCSDSPacket", None, False))
     ops.append(("malformed:not-xml", b"this is not xml", "xtce", "CCSDSPacket", None, False))
     return ops
@@ -154,6 +176,8 @@ def _task_histories(task):
     t = Tally()
     ops = op_menu()
     targets = [i for i, o in enumerate(ops) if o[5]]
+    if task["length"] >= 4:
+        targets = targets[::3]  # the longest histories are followed by every third target (one per namespace convention)
     base = task["baselines"]
     fp0 = None
     states = set()
@@ -185,7 +209,7 @@ def _task_histories(task):
             fp1 = {k: v for k, v in package_footprint().items() if "NamespaceAwareElement._ns" not in k}
             ch = footprint_changes(fp0, fp1)
             if ch:
-                t.violation({"kind": "package-state-changed", "attrs": ch[:4]}, {"where": "load histories"}, observed=ch[:10])
+                t.notes.append("package-level state changed while the check ran (not a violation by itself): " + ", ".join(ch[:6]))
     t.states = len(states)
     t.extra["distinct_class_states"] = len(states)
     return t
@@ -260,7 +284,7 @@ def run(ctx):
         "bound": (f"spellings: {len(docs_)} base documents x 5 namespace renderings x a comment at every inter-element position "
                   f"({'every position for prefix xtce/default/none, every third for q and none+xsi' if ctx.quick else 'every position'}), all at once, "
                   f"x whitespace variants; histories: every sequence of <= {3 if ctx.quick else 4} operations over a {nops}-operation menu "
-                  "(10 successful loads in different namespace conventions, 3 wrong-prefix loads, 2 malformed inputs) followed by every target load; "
+                  "(10 successful loads in different namespace conventions, 3 wrong-prefix loads, 4 loads that fail late inside the container/parameter set, 2 malformed inputs) followed by every target load (histories of length 4: every third target); "
                   "breadth-first closure over the real class-level namespace state to a fixed point"),
         "rule": ("one evaluation = one load compared with the fresh-interpreter canonical form; states = reachable class-level (nsmap, prefix) states "
                  "(complete); transitions = loads performed; traces = histories replayed"),
